@@ -5,6 +5,7 @@
 // No allocation faults are injected here (the function is not specified to
 // survive them).
 #include "runner.h"
+#include "ambient.h"
 
 #include <algorithm>
 
@@ -117,6 +118,7 @@ JP runC16(uint64_t runSeed, int64_t runIdx, const TierCfg &cfg) {
     JP violations = JVal::arr();
     Result ref;
     std::string why;
+    ambientResetStreams();
     if (!attributable(op, ref, why)) {
         line->set("observation", why + ": " + op.brief());
         line->set("observation_op", op.toJson(false));
@@ -224,6 +226,7 @@ std::vector<Verdict> replayCaseC16(const Case &c, std::string &note) {
     Result ref;
     std::string why;
     std::vector<Verdict> none;
+    ambientResetStreams();
     if (!attributable(c.op, ref, why)) {
         note = "operation not attributable: " + why;
         return none;
